@@ -80,7 +80,7 @@ NAMES = ["auto", "other"]         # auto: cells named after the function; other:
 PARAMS = ["p1", "p0", "p2", "pa"]
 DOCSTRINGS = ["none", "one", "multi", "quote", "raw", "single"]
 COMMENTS = ["none", "lead", "defline", "lastline", "after", "after0", "inner0"]
-BODIES = ["multi", "oneline", "ndef", "nlambda", "nclass", "comp", "paren"]
+BODIES = ["multi", "oneline", "ndef", "nlambda", "nclass", "comp", "paren", "ndeco", "nstatic"]
 LAM_BODIES = ["multi", "nlambda", "comp", "paren"]     # "multi" stands for the simple expression
 INDENTS = ["0", "0n", "4", "8", "tab", "tq4", "0t"]
 OBJ_INDENTS = ["0", "4", "8", "tab", "0t"]
@@ -129,6 +129,8 @@ PREAMBLE = [
     "    return fn",
     "def deco_args(*args, **kwargs):",
     "    return deco",
+    "def bump(fn):",
+    "    return lambda *a: fn(*a) + 5",
     "def ident(fn, *rest):",
     "    return fn",
     "BEFORE = lambda q: q - 1      # another lambda on an earlier line of the module",
@@ -238,6 +240,11 @@ def build(case):
                       "return K().m(%s) + K.v%s" % (X, Y)]
             elif body == "comp":
                 st = ["return sum([g(i) for i in range(%s + 1)]) + r%s" % (X, Y)]
+            elif body == "ndeco":       # a decorated def nested in the function: its decorator is part of the body
+                st = ["@bump", "def h(a):", unit + "return g(a) + r", "return h(%s)%s" % (X, Y)]
+            elif body == "nstatic":     # a decorated method of a nested class
+                st = ["class K:", unit + "@staticmethod", unit + "def m(a):", unit + unit + "return g(a) + r",
+                      "return K().m(%s)%s" % (X, Y)]
             else:
                 st = ["return (g(%s) +" % X, "        r%s)" % Y]
             if comment == "inner0" and len(st) < 2:
@@ -293,8 +300,15 @@ def build(case):
 # ----------------------------------------------------------------------------------------------
 # reference function (CPython only)
 
+def bump(fn):
+    """Decorator used by nested definitions (bound as a reference in the spaces)."""
+    def wrapped(*a):
+        return fn(*a) + 5
+    return wrapped
+
+
 def ref_namespace():
-    return {"r": R_VALUE, "g": g_ref}
+    return {"r": R_VALUE, "g": g_ref, "bump": bump}
 
 
 def reference(T):
@@ -388,8 +402,9 @@ class World:
         reset_world()
         self.m = mx.new_model("M")
         if T["via"] == "obj":
-            World.counter += 1
-            self.modname = "c20mod_%d_%d" % (os.getpid(), World.counter)
+            # one module file per worker, rewritten for every text (a user editing and re-running a module):
+            # captures must not depend on what the file held before
+            self.modname = "c20mod_%d" % os.getpid()
             self.path = os.path.join(tmpdir, self.modname + ".py")
             with open(self.path, "w") as f:
                 f.write(T["text"])
@@ -401,6 +416,7 @@ class World:
         self.nspace += 1
         s = self.m.new_space("S%d" % self.nspace)
         s.r = R_VALUE
+        s.bump = bump
         if self.nspace == 1:
             self.g = s.new_cells("g", formula=G_SOURCE)       # the sibling cells
         else:
@@ -693,7 +709,8 @@ def tier_dims(tier):
                 "comment": ["none", "lead", "defline", "lastline", "after"],
                 "docs": DOC_MENU_QUICK,
                 "def_params": ["p1", "pa"], "lam_params": ["p1", "p2"],
-                "def_body": ["multi", "oneline", "ndef", "nclass", "comp", "paren"], "lam_body": LAM_BODIES}
+                "def_body": ["multi", "oneline", "ndef", "nclass", "comp", "paren", "ndeco", "nstatic"],
+                "lam_body": LAM_BODIES}
     return {"form": FORMS, "name": NAMES, "indent": INDENTS, "doc": DOCSTRINGS,
             "comment": COMMENTS, "docs": DOC_MENU_ALL,
             "def_params": PARAMS, "lam_params": PARAMS, "def_body": BODIES, "lam_body": BODIES}
